@@ -40,6 +40,14 @@ def generate(module, cfg_template, subst, work, name, workers=1, tags=("SCRIPT",
     n = vlib.unwrap(out, tmp, tags=tags)
     os.replace(tmp, dest)
     json.dump({"count": n, "stats": st}, open(meta, "w"))
+    # older generations of the same family (other spec hashes) are dead weight
+    for old in glob.glob(os.path.join(cache_dir(), "%s-*.ndjson" % name)):
+        if old != dest and re.fullmatch(re.escape(name) + r"-[0-9a-f]{20}\.ndjson", os.path.basename(old)):
+            for f in (old, old + ".meta"):
+                try:
+                    os.unlink(f)
+                except OSError:
+                    pass
     os.unlink(out)
     return dest, n, st
 
